@@ -159,6 +159,9 @@ def run(chk):
     run_group(chk, "ip", K, ip, [(3, 3), (3, 2), (2, 2)], seeds, gs,
               adc=[(2, 1, True)])
     run_group(chk, "ea", K, ea, [(3, 3), (2, 3), (2, 2)], seeds, gs)
+    # the pure helper functions behind this property (spec/Helpers.tla)
+    from .helpers import run_helpers
+    run_helpers(chk, ('bord',))
     return chk.finish(
         rule="each expec_block_contribution / trans_moment_space request is "
              "one event: TLC evaluates the derived scalar (contracted with "
